@@ -34,7 +34,20 @@ type cont = { mutable l : (BinNums.coq_Z * BinNums.coq_Z) list;   (* ordered: th
               mutable mm : (BinNums.coq_Z * BinNums.coq_Z list) list; (* unordered_multimap: nested HashMultiMap state *)
               mutable aid : int }
 
-let run_assoc typed moveonly nopayload sh ak idA idB ops =
+(* key positions per operation (for the descending-comparator mode of the ordered kinds: the model keeps keys negated) *)
+let key_positions o n = match o with
+  | "ins" | "emp" | "insc" | "empp" | "set" | "setr" | "try" | "tryr" | "ioa" | "find" | "cnt" | "has" | "eqr" | "lb" | "ub" | "erk" | "erre" | "err0"
+  | "at" | "idx" | "ext" | "findh" | "cnth" | "hash" | "eqrh" | "lbh" | "ubh" | "erf" | "err1" | "ernx" -> [2]
+  | "insh" | "emph" | "tryh" | "ioah" | "xins" | "xinsh" -> [3]
+  | "xmut" | "fill" -> [3; 4]
+  | "kfn" -> [2; 3]
+  | "insr" | "insl" | "insm" | "asl" | "mrgm" | "mrgt" -> let rec go i = if i < n then i :: go (i + 2) else [] in go 2
+  | _ -> []
+let run_assoc neg typed moveonly nopayload sh ak idA idB ops =
+  let e2s (k, v) = e2s ((if neg then zi (- (iz k)) else k), v) in
+  let dump sorted l = "[" ^ String.concat "," (L.map e2s (if sorted then l else L.sort cmp_elem l)) ^ "]" in
+  let kint k = if neg then - (iz k) else iz k in
+  let unneg l = if neg then L.map (fun (k, v) -> (zi (- (iz k)), v)) l else l in
   let stateful = ak <> 0 in
   let cca, cma, cs = traits_of ak in
   let c = [| { l = []; mm = []; aid = if stateful then idA else 0 }; { l = []; mm = []; aid = if stateful then idB else 0 } |] in
@@ -47,14 +60,14 @@ let run_assoc typed moveonly nopayload sh ak idA idB ops =
   let insert x e =
     let e = if nopayload then (fst e, zi 0) else e in
     if ordered then begin
-      let ((i, b), l') = (if ismap then WrapOrdered.map_insert multi e x.l else Spec.ord_insert multi e x.l) in
+      let ((i, b), l') = (if ismap then GenRefine.gen_map_insert multi e x.l else Spec.ord_insert multi e x.l) in   (* pvFind(nullptr) regenerated from map.h *)
       x.l <- l'; (pos_i i, b) end
     else if sh = UMMap then (x.mm <- WrapEq.mm_insert (fst e) (snd e) x.mm; (pos_e e, true))
     else begin let ((r, b), l') = Spec.u_insert false e x.l in x.l <- l'; (pos_e r, b) end in
   let insert_hint x h e =
     if ordered then begin
       let h' = ni (min h (len x.l)) in
-      let ((i, b), l') = (if ismap then WrapOrdered.map_insert_hint multi x.l h' e else WrapOrdered.set_insert_hint multi x.l h' e) in
+      let ((i, b), l') = (if ismap then GenRefine.gen_map_insert_hint multi x.l h' e else GenRefine.gen_set_insert_hint multi x.l h' e) in   (* pvFind(hint) / pvCheckHint regenerated *)
       x.l <- l'; (pos_i i, b, inat i) end
     else let (p, b) = insert x e in (p, b, 0) in
   let find_pos x k =
@@ -78,7 +91,10 @@ let run_assoc typed moveonly nopayload sh ak idA idB ops =
   let pairs w from = let rec go i = if i + 1 < Array.length w then (zi (ai w i), zi (ai w (i + 1))) :: go (i + 2) else [] in go from in
   let bstr b = if b then "1" else "0" in
   let op w =
-    let o = w.(0) in let x = c.(ai w 1 land 1) in
+    let o = w.(0) in
+    let w = (if neg then (let ks = key_positions o (Array.length w) in
+                          Array.mapi (fun i s -> if L.mem i ks then string_of_int (- (try int_of_string s with _ -> 0)) else s) w) else w) in
+    let x = c.(ai w 1 land 1) in
     match o with
     | "ins" | "emp" | "insc" | "empp" ->
       let (p, b) = insert x (zi (ai w 2), zi (ai w 3)) in if multi then p else p ^ "," ^ bstr b
@@ -99,7 +115,7 @@ let run_assoc typed moveonly nopayload sh ak idA idB ops =
     | "err" -> if not ordered then "" else let i = ai w 2 and j = ai w 3 in
       if 0 <= i && i <= j && j <= len x.l then (let (r, l') = Spec.ord_erase_range (ni i) (ni j) x.l in x.l <- l'; pos_i r) else "skip"
     | "erloop" -> let m = max 1 (ai w 2) and r = ai w 3 in
-      let p k = (((iz k mod m) + m) mod m) = r in
+      let p k = (((kint k mod m) + m) mod m) = r in
       let before = len (contents x) in
       (if sh = UMMap then x.mm <- WrapEq.mm_erase_if p x.mm else x.l <- L.filter (fun e -> not (p (fst e))) x.l);
       Printf.sprintf "%d/%d" (before - len (contents x)) before
@@ -141,9 +157,9 @@ let run_assoc typed moveonly nopayload sh ak idA idB ops =
         let endpos = if ordered then string_of_int (len d.l) else "end" in
         node_str n0 ^ ">" ^
         (match n with
-         | None -> if o = "xinsh" || multi then endpos else endpos ^ ",0,empty"
+         | None -> if o = "xinsh" then endpos ^ ",empty" else if multi then endpos else endpos ^ ",0,empty"
          | Some e ->
-           if o = "xinsh" then (let (p, _, _) = insert_hint d (ai w 4) e in p)
+           if o = "xinsh" then (let (p, b, _) = insert_hint d (ai w 4) e in p ^ "," ^ (if b then "empty" else e2s e))
            else let (p, b) = insert d e in
              if multi then p else p ^ "," ^ bstr b ^ "," ^ (if b then "empty" else e2s e)) end
     | "merge" -> if not (has_nodes sh) then "" else begin
@@ -175,10 +191,10 @@ let run_assoc typed moveonly nopayload sh ak idA idB ops =
         (if cs then let t = c.(0).aid in c.(0).aid <- c.(1).aid; c.(1).aid <- t);
         Printf.sprintf "a%da%d" c.(0).aid c.(1).aid end
     | "cmp" -> let l = c.(ai w 1 land 1) and r = c.(ai w 2 land 1) in
-      if ordered then String.concat "" (L.map bstr (Spec.cmp6 l.l r.l))
+      if ordered then String.concat "" (L.map bstr (Spec.cmp6 (unneg l.l) (unneg r.l)))   (* operator< compares elements, not through key_comp *)
       else let eq = (if sh = UMMap then WrapEq.mm_eq l.mm r.mm else Spec.perm_eqb l.l r.l) in bstr eq ^ bstr (not eq)
     | "erif" -> let m = max 1 (ai w 2) and r = ai w 3 in
-      let p k = (((iz k mod m) + m) mod m) = r in
+      let p k = (((kint k mod m) + m) mod m) = r in
       let before = len (contents x) in
       (if sh = UMMap then x.mm <- WrapEq.mm_erase_if p x.mm else x.l <- L.filter (fun e -> not (p (fst e))) x.l);
       string_of_int (before - len (contents x))
@@ -282,21 +298,22 @@ let run_we kind parts =
     let mkit p t = if p < 0 then WrapErase.End else WrapErase.At (ni p, t <> 0) in
     let first = mkit its.(0) its.(1) and last = mkit its.(2) its.(3) in
     let r = (match shape_of kind with
-             | UMMap -> WrapErase.mm_erase_range order first last
-             | _ -> WrapErase.us_erase_range order first last) in
+             | UMMap -> GenRefine.gen_mm_erase_range order first last      (* erase(first,last) regenerated from unordered_multimap.h *)
+             | _ -> GenRefine.gen_us_erase_range order first last) in     (* ... from unordered_set.h / unordered_map.h *)
     (match r with
      | WrapErase.Throw -> "throw"
      | WrapErase.Done (rest, ret) -> "ok ret=" ^ (match ret with Some e -> e2s e | None -> "end") ^ " rest=" ^ dump false rest)
   | _ -> "?"
 
 (* unordered_multimap with identity-tagged keys: elements ((k,id),v) encoded as (k*1000+id, v); == is Spec.perm_eqb *)
-let run_mmk rest =
+let run_mmk unique rest =
   let parts = split_on "/" rest in
   let tr s = match String.split_on_char '.' s with [k; id; v] -> (int_of_string k, int_of_string id, int_of_string v) | _ -> failwith "triple" in
   let a = L.map tr (L.nth parts 0) and b = L.map tr (L.nth parts 1) in
   let m, r = (match parts with [_; _; [m; r]] -> int_of_string m, int_of_string r | _ -> 0, 0) in
   let keep (k, _, _) = not (m > 0 && k mod m = r) in
-  let enc l = L.map (fun (k, id, v) -> (zi (k * 1000 + id), zi v)) (L.filter keep l) in
+  let rec dedupe seen = function [] -> [] | (k, id, v) :: t -> if L.mem k seen then dedupe seen t else (k, id, v) :: dedupe (k :: seen) t in
+  let enc l = L.map (fun (k, id, v) -> (zi (k * 1000 + id), zi v)) (L.filter keep (if unique then dedupe [] l else l)) in
   let a = enc a and b = enc b in
   let bs x = if x then "1" else "0" in
   let e1 = Spec.perm_eqb a b and e2 = Spec.perm_eqb b a in
@@ -312,13 +329,14 @@ let () = iter_lines (fun line ->
         | "we" :: kind :: _hm :: rest -> run_we kind (split_on "/" rest)
         | "wl" :: kind :: _hm :: rest -> run_wl kind (split_on "/" rest)
         | "pbs" :: _ -> "ok"
-        | ("mmk" | "mmko") :: _hm :: rest -> run_mmk rest
+        | ("mmk" | "mmko") :: _hm :: rest -> run_mmk false rest
+        | ("umk" | "umko") :: _hm :: rest -> run_mmk true rest
         | kind :: _ ->
           let h = Array.of_list head in
           let ops = L.map Array.of_list ops in
           (match shape_of kind with
            | Vec -> run_vec (if kind = "svec" then (-1) else 0) (if kind = "svec" && ai h 1 <> 0 then 3 else ai h 1) (ai h 2) (ai h 3) ops
-           | sh -> run_assoc (L.mem kind ["smap"; "sumap"; "momap"; "moumap"]) (L.mem kind ["momap"; "moumap"]) (L.mem kind ["usetf"; "usetf_o"]) sh (ai h 1) (ai h 2) (ai h 3) ops)
+           | sh -> run_assoc (ai h 4 = 1 && L.mem kind ["set"; "mset"; "map"; "mmap"; "momap"]) (L.mem kind ["smap"; "sumap"; "momap"; "moumap"]) (L.mem kind ["momap"; "moumap"]) (L.mem kind ["usetf"; "usetf_o"]) sh (ai h 1) (ai h 2) (ai h 3) ops)
         | [] -> "?"))
   with e -> "MODEL-EXC " ^ Printexc.to_string e) in
   print_endline res)
